@@ -101,13 +101,15 @@ def type_width(T):
 
 
 def type_desc(T):
-    """Type descriptor of SVSem!Leaves for a PyMTL data type (Bits class / bitstruct class / list)."""
+    """Shape (spec/BitStruct.tla: Leaf / Struct / List) of a PyMTL data type (Bits class / bitstruct
+    class / list of types).  Only names, widths and the declaration order are read off the type; the
+    bit positions are computed by BitStruct!Layout in TLC."""
     from pymtl3.datatypes import is_bitstruct_class
     if isinstance(T, list):
-        return {"k": "arr", "n": len(T), "ty": type_desc(T[0])}
+        return {"k": "list", "n": len(T), "t": type_desc(T[0])}
     if is_bitstruct_class(T):
-        return {"k": "struct", "fs": [{"n": n, "ty": type_desc(t)} for n, t in T.__bitstruct_fields__.items()]}
-    return {"k": "bits", "w": T.nbits}
+        return {"k": "struct", "fs": [{"n": n, "t": type_desc(t)} for n, t in T.__bitstruct_fields__.items()]}
+    return {"k": "leaf", "w": T.nbits}
 
 
 def _to_int(val):
@@ -143,14 +145,16 @@ class SimAbort(Exception):
     pass
 
 
-def record(factory, stimulus, reset_cycles=3, passgroup=None):
+def record(factory, stimulus, reset_cycles=3, passgroup=None, tvres=None):
     """Simulate `factory()` under DefaultPassGroup.
 
     stimulus: list of cycles; a cycle is either a dict {port path: int} (ports not mentioned keep
     their value) or a callable f(top) that sets inputs itself (repo TV_IN functions).
     Returns (ports, cycles, aborted) with cycles = [{"in": {path: int}, "outc": {...}, "outt": {...}}];
     a cycle during which the simulation raises (division by zero, index out of range: outside the
-    property) ends the recording (aborted = exception text)."""
+    property) ends the recording (aborted = exception text).
+    A stimulus entry may also be a pair (set inputs, verify outputs) of a repo test case; the verdict of
+    `verify outputs` on the PyMTL simulation (True / False) is appended to `tvres`."""
     from pymtl3.passes.PassGroups import DefaultPassGroup
     top = factory()
     top.elaborate()
@@ -166,13 +170,19 @@ def record(factory, stimulus, reset_cycles=3, passgroup=None):
     cycles = []
     aborted = None
 
-    def cycle(setter):
+    def cycle(setter, checker=None):
         nonlocal aborted
         try:
             setter()
             i = snap(ins)
             top.sim_eval_combinational()
             oc = snap(outs)
+            if checker is not None and tvres is not None:
+                try:
+                    checker(top)
+                    tvres.append(True)
+                except AssertionError:
+                    tvres.append(False)
             top.sim_tick()
             ot = snap(outs)
         except (ZeroDivisionError, IndexError, ValueError, AssertionError, OverflowError) as e:
@@ -193,7 +203,11 @@ def record(factory, stimulus, reset_cycles=3, passgroup=None):
     if ok:
         set_reset(0)()
         for c in stimulus:
-            if callable(c):
+            checker = None
+            if isinstance(c, tuple):
+                setter = (lambda c=c: c[0](top))
+                checker = c[1]
+            elif callable(c):
                 setter = (lambda c=c: c(top))
             else:
                 def setter(c=c):
@@ -201,7 +215,7 @@ def record(factory, stimulus, reset_cycles=3, passgroup=None):
                         T = next(p[2] for p in ins if p[0] == path)
                         x = _get(top, path)
                         x @= _from_int(T, v)
-            if not cycle(setter):
+            if not cycle(setter, checker):
                 break
     return ports, cycles, aborted
 
@@ -215,7 +229,7 @@ def _entry(backend, path, T, v):
     if backend == SV:
         name = "__".join(t for t in path if not isinstance(t, int))
         ix = [t for t in path if isinstance(t, int)]
-        return {"n": name, "ix": ix, "ty": {"k": "bits", "w": w}, "v": bits_of(v, w)}
+        return {"n": name, "ix": ix, "ty": {"k": "leaf", "w": w}, "v": bits_of(v, w)}
     name = "__".join(str(t) for t in path)
     return {"n": name, "ix": [], "ty": type_desc(T), "v": bits_of(v, w)}
 
@@ -233,6 +247,133 @@ def make_trace(flat, backend, ports, cycles, uns=False, tag=None):
     d = dict(flat)
     d["uns"] = bool(uns)
     return {"d": d, "mode": "run", "ev": ev, "tag": tag or ""}
+
+
+# --------------------------------------------------------------------------------------
+# the repository's hand-written test vectors as a trace (no PyMTL simulation involved)
+# --------------------------------------------------------------------------------------
+
+class _VecUnsupported(Exception):
+    pass
+
+
+class _PortProxy:
+    """Stands for one value port of the DUT while the case's TV_IN / TV_OUT functions run:
+    `m.p @= x` logs an input, `m.p == x` logs an expectation (and is true)."""
+
+    def __init__(self, path, T, log):
+        object.__setattr__(self, "_p", (path, T, log))
+
+    def __imatmul__(self, v):
+        path, T, log = self._p
+        log.append(("in", path, _coerce(T, v)))
+        return self
+
+    def __eq__(self, v):
+        path, T, log = self._p
+        log.append(("out", path, _coerce(T, v)))
+        return True
+
+    def __ne__(self, v):
+        raise _VecUnsupported("!= in a TV_OUT function")
+
+    def __getattr__(self, n):
+        raise _VecUnsupported("member access .%s on port %s" % (n, port_key(self._p[0])))
+
+    def __getitem__(self, i):
+        raise _VecUnsupported("slice of port %s" % port_key(self._p[0]))
+
+    __hash__ = None
+
+
+class _NodeProxy:
+    pass
+
+
+def _coerce(T, v):
+    """int value of `v` as a value of the port type T (what `port @= v` would store)."""
+    from pymtl3.datatypes import Bits, is_bitstruct_class
+    if is_bitstruct_class(T):
+        if isinstance(v, T):
+            return int(v.to_bits())
+        raise _VecUnsupported("struct port given %r" % (type(v).__name__,))
+    if isinstance(v, Bits):
+        if v.nbits != T.nbits:
+            raise _VecUnsupported("Bits%d value for a Bits%d port" % (v.nbits, T.nbits))
+        return int(v)
+    if isinstance(v, int):
+        return v & ((1 << T.nbits) - 1)
+    raise _VecUnsupported("value of type %s" % type(v).__name__)
+
+
+def _proxy_tree(ports, log):
+    root = _NodeProxy()
+
+    def put(parent, toks, leaf):
+        t, rest = toks[0], toks[1:]
+        nxt_is_idx = bool(rest) and isinstance(rest[0], int)
+        if isinstance(parent, list):
+            while len(parent) <= t:
+                parent.append(None)
+            cur = parent[t]
+            if not rest:
+                parent[t] = leaf
+                return
+            if cur is None:
+                cur = parent[t] = [] if nxt_is_idx else _NodeProxy()
+            put(cur, rest, leaf)
+        else:
+            if not rest:
+                object.__setattr__(parent, t, leaf)
+                return
+            cur = parent.__dict__.get(t)
+            if cur is None:
+                cur = [] if nxt_is_idx else _NodeProxy()
+                object.__setattr__(parent, t, cur)
+            put(cur, rest, leaf)
+
+    for (path, _d, T) in ports:
+        put(root, list(path), _PortProxy(path, T, log))
+    return root
+
+
+def vector_trace(flat, backend, factory, tv, tv_in, tv_out, tag=None):
+    """The maintainers' vectors (TV, TV_IN, TV_OUT of a test case) as an SVSemTrace trace: three reset
+    edges (TestVectorSimulator calls sim_reset), then per vector the inputs TV_IN sets and the outputs
+    TV_OUT expects after the combinational evaluation, then a clock edge.
+    Returns (trace, number of expectations) or raises _VecUnsupported."""
+    top = factory()
+    top.elaborate()
+    ports = [p for p in walk_ports(top) if p[0] != ("clk",)]
+    types = {p[0]: p[2] for p in ports}
+    dirs = {p[0]: p[1] for p in ports}
+    log = []
+    m = _proxy_tree(ports, log)
+    rst = ("reset",)
+    ev = [{"in": [_entry(backend, rst, types[rst], 1)], "outc": [], "tick": True, "outt": []} for _ in range(3)]
+    nexp = 0
+    for i, vec in enumerate(tv):
+        del log[:]
+        tv_in(m, vec)
+        ins = {rst: 0} if i == 0 else {}
+        for (k, path, v) in log:
+            if k != "in" or dirs[path] != "in":
+                raise _VecUnsupported("TV_IN touches %s" % port_key(path))
+            ins[path] = v
+        del log[:]
+        tv_out(m, vec)
+        outs = {}
+        for (k, path, v) in log:
+            if k != "out":
+                raise _VecUnsupported("TV_OUT writes %s" % port_key(path))
+            outs[path] = v
+        nexp += len(outs)
+        ev.append({"in": [_entry(backend, p, types[p], v) for p, v in ins.items()],
+                   "outc": [_entry(backend, p, types[p], v) for p, v in outs.items()],
+                   "tick": True, "outt": []})
+    d = dict(flat)
+    d["uns"] = False
+    return {"d": d, "mode": "run", "ev": ev, "tag": tag or ""}, nexp
 
 
 def drivers_trace(flat, tag=None):
